@@ -16,7 +16,7 @@ use crate::iterator::component_iterator::ComponentIterator;
 use crate::iterator::iterator_trait::{IteratingInstrumenter, Iterator as WIterator};
 use crate::iterator::module_iterator::ModuleIterator;
 use crate::opcode::{Inject, InjectAt, Instrumenter};
-use crate::vmodel::HashMap;
+use crate::vmodel::VecHashMap as HashMap;
 use wasmparser::Operator;
 
 fn mk() -> Module<'static> {
@@ -287,37 +287,3 @@ fn flag_empty_alternates() {
 }
 
 // (function-level entry/exit through FunctionModifier/ModuleIterator: out of memory under CBMC, covered by engine T C17/C22)
-
-fn component_case(path: u8, mode: InstrumentationMode) {
-    let mut comp = Component::new();
-    comp.modules.push(mk());
-    comp.num_modules = 1;
-    let at: usize = 0;
-    {
-        let skip: HashMap<ModuleID, Vec<FunctionID>> = HashMap::new();
-        let mut it = ComponentIterator::new(&mut comp, skip);
-        let loc = Location::Component { mod_idx: ModuleID(0), func_idx: FunctionID(0), instr_idx: at };
-        if path == 0 {
-            it.set_instrument_mode(mode);
-            it.inject(Operator::Nop);
-        } else if path == 1 {
-            it.inject_at(at, mode, Operator::Nop);
-        } else {
-            it.set_instrument_mode_at(mode, loc);
-            it.add_instr_at(loc, Operator::Nop);
-        }
-    }
-    check_min(&comp.modules[0], mode, at, 1);
-    kani::cover!(true, "call accepted and returned");
-    std::mem::forget(comp);
-}
-macro_rules! ch {
-    ($name:ident, $path:expr, $mode:ident) => {
-        #[kani::proof]
-        #[kani::stub(alloc::fmt::format, crate::kh::no_format)]
-        #[kani::unwind(10)]
-        fn $name() {
-            component_case($path, InstrumentationMode::$mode)
-        }
-    };
-}
